@@ -275,7 +275,11 @@ def cases(ctx):
         if rng.random() < 0.75:
             ids = [rng.choice(safe) for _ in range(rng.randint(2, 8))]
         else:
-            ids = [rng.choice(safe) for _ in range(rng.randint(0, 5))] + [rng.choice([x for x in p if x in STOPPERS])] + [rng.choice(safe) for _ in range(rng.randint(0, 2))]
+            st = rng.choice([x for x in p if x in STOPPERS])
+            # a failed write to a standard stream can leave unwritten bytes in its buffer: what later calls on that stream meet is then
+            # no longer the scenario's own failure (e.g. pcap_stream(stdout) itself fails first), so nothing follows such a stopper
+            tail = [] if st.startswith(("write_std", "flush_std")) else [rng.choice(safe) for _ in range(rng.randint(0, 2))]
+            ids = [rng.choice(safe) for _ in range(rng.randint(0, 5))] + [st] + tail
         if env == "stdout-full" and ids.count("write_stdout_small_nofault") > 3:
             continue
         add(env, ids, "sequence-" + env)
